@@ -192,7 +192,7 @@ class CallMixin:
         self.stats["calls_inlined"] += 1
         self.functions_seen.add(f)
         ev = self.emit("call", node, callee=f, recv=recv, recv_cls=recv_cls, args=dict(env))
-        saved_out, saved_stack, saved_narrow = self.out, self.callstack, self.narrow
+        saved_out, saved_stack, saved_narrow, saved_guards = self.out, self.callstack, self.narrow, self.guards
         self.out = ev.children
         self.callstack = self.callstack + ((f, node),)
         self.narrow = dict(self.narrow)
@@ -203,6 +203,7 @@ class CallMixin:
         finally:
             self.frames.pop()
             self.out, self.callstack, self.narrow = saved_out, saved_stack, saved_narrow
+            self.guards = saved_guards
         # state after the call = join over all return points (paths that raise do not continue)
         states = list(fr.ret_heaps)
         if falls:
